@@ -158,6 +158,10 @@ class CDF(keras.layers.Layer):
   def build(self, input_shape):
     """Standard Keras build() method."""
     input_dim = int(input_shape[-1])
+    if self.num_keypoints < 1:
+      raise ValueError(
+          "num_keypoints must be at least 1. Given: {}".format(
+              self.num_keypoints))
     if input_dim % self.sparsity_factor != 0:
       raise ValueError(
           "sparsity_factor ({}) must be a divisor of input_dim ({})".format(
